@@ -2,6 +2,7 @@ from lib import flat_sites
 
 SPEC = {
     "id": "C02",
+    "abort_is_violation": True,  # the property is totality: a process abort / hang of the real code on a case is a violation
     "level": "proof",
     "lean_modules": ["PallasVerif.Props.C02"],
     "required_theorems": ["dec_total", "dec_total_single", "call_safe", "pos_le_len", "decode_list_with_total", "decode_top_total", "arith_sites_in_range",
